@@ -139,6 +139,11 @@ pub enum EnvEvent {
     /// the user (or a settings UI) writes <config>/MathCAT/prefs.yaml
     WriteUserPrefs { content: String },
     RemoveUserPrefs,
+    /// the disk fills up: after `after_writes` more data writes every write fails with ENOSPC (the file has been created
+    /// or truncated by then: a torn extraction leaves empty files behind)
+    DiskFull { after_writes: u64 },
+    /// space is available again
+    DiskFree,
     /// replace a `Name: value` line inside the system prefs.yaml (user edits the shipped file)
     EditSysPref { mount: String, name: String, value: String },
 }
